@@ -236,6 +236,11 @@ def handleText (j : Json) : Except String Json := do
   | "update_file" =>
     let ls := Text.stripLines (Text.tokenize (← getStr j "text"))
     return exceptJson (fun (r : List Text.Line) => toJson (Text.render r)) (Text.updateFile ls (← getInts j "sol"))
+  | "cmsgen_line" =>
+    let sol ← j.getObjValAs? (Array Bool) "solution"
+    return Json.mkObj [("ok", toJson (Text.renderLine (Text.cmsgenSampleLine sol.toList (← getNats j "sampling"))))]
+  | "unigen_line" =>
+    return Json.mkObj [("ok", toJson (Text.renderLine (Text.unigenSampleLine (← getInts j "sample"))))]
   | "opb" =>
     let vals ← parseCnf j "vals"; let reqs ← parseRequests j "reqs"
     return Json.mkObj [("ok", toJson (Text.opbText vals reqs))]
